@@ -2,6 +2,7 @@
 import sys, math
 from fractions import Fraction as Fr
 from common import *  # noqa
+sys.path.insert(0, os.path.join(VERIF, 'translate')); import cores  # noqa: E402
 
 PID = 'C17'
 MODEL = 'BctVerif.Model.Thresh'
@@ -744,7 +745,13 @@ def main():
                        'NumPy argsort tie order is an oracle input of the model, recomputed by the harness on its own preprocessed copy',
                        'np.allclose(W, W.T) is modelled with the exact rationals 1/10^8 and 1/10^5; inputs stay far from that boundary']
     ck.trusted = TRUSTED_DEFAULT + ['IEEE-754: w/m and 1/w are correctly rounded, so float(exact model value) must equal the NumPy result bit for bit']
+    # T-gen: re-extract the core update steps from /repo's current source (translate/cores.py); the generated
+    # obligations say the extracted IR is the reference program whose interpreter is proved equal to the model
+    ck.cov['cores'] = cores.generate(families=['util'])
+    for p_ in ck.cov['cores']['problems']:
+        ck.corr_break('core extractor (translate/cores.py)', p_)
     ok = ck.lean_gate(['BctVerif.Props.C17'], extra_modules=[MODEL])
+    ck.lean_gate([], gen_modules=['BctVerif.Gen.CoresUtil'])
     if ck.tier == 'thorough' and ok:
         ck.leanchecker(['BctVerif.Props.C17', MODEL])
     rs = ck.rs
